@@ -42,8 +42,9 @@ def run_generic(pid, tier, seed, mk_runs, which, nq, nt, rule):
             for f in sorted(os.listdir(rd)):
                 if f.startswith("c09_"):
                     q = json.load(open(os.path.join(rd, f)))
-                    q["runs"] = [{"kind": "td", "dom": d, "max_cc": mcc, "exact": ex, "rec": 0, "wd": 1, "desc": 1, "th": 0}
-                                 for d in ("intervals", "split_dbm") for mcc in (-1, 1, 2) for ex in (0, 1)]
+                    if not q.get("keep_runs"):      # (a regression file may carry the configuration it failed with)
+                        q["runs"] = [{"kind": "td", "dom": d, "max_cc": mcc, "exact": ex, "rec": 0, "wd": 1, "desc": 1, "th": 0}
+                                     for d in ("intervals", "split_dbm") for mcc in (-1, 1, 2) for ex in (0, 1)]
                     ps.append(q)
         viols, merged, timeouts = intersound.explore(ck, "b%d" % k, ps)
         ck.cov["distinct_nontrivial"] += sum(1 for p in merged for r in p["runs"] if r["err"] == 0 and
